@@ -175,6 +175,58 @@ pub fn gen_content(rng: &mut Rng, class: &str, len: usize) -> Vec<u8> {
     }
 }
 
+/// A `Read + Seek (+ Write)` source that hands out / accepts fewer bytes per call than asked for, the way a pipe, an
+/// archive-backed stream or a socket legitimately does: at most `max` bytes per `read` / `write` call (cycling through
+/// 1..=max so that every smaller size occurs as well). Everything else is the wrapped cursor's.
+pub struct ShortIo<T> {
+    pub inner: T,
+    max: usize,
+    tick: usize,
+    pub reads: u64,
+    pub writes: u64,
+}
+
+impl<T> ShortIo<T> {
+    pub fn new(inner: T, max: usize) -> Self {
+        ShortIo { inner, max: max.max(1), tick: 0, reads: 0, writes: 0 }
+    }
+    fn next_len(&mut self, want: usize) -> usize {
+        self.tick = self.tick.wrapping_add(1);
+        want.min(1 + self.tick % self.max)
+    }
+}
+
+impl<T: std::io::Read> std::io::Read for ShortIo<T> {
+    fn read(&mut self, buf: &mut [u8]) -> std::io::Result<usize> {
+        if buf.is_empty() {
+            return Ok(0);
+        }
+        let n = self.next_len(buf.len());
+        self.reads += 1;
+        self.inner.read(&mut buf[..n])
+    }
+}
+
+impl<T: std::io::Write> std::io::Write for ShortIo<T> {
+    fn write(&mut self, buf: &[u8]) -> std::io::Result<usize> {
+        if buf.is_empty() {
+            return Ok(0);
+        }
+        let n = self.next_len(buf.len());
+        self.writes += 1;
+        self.inner.write(&buf[..n])
+    }
+    fn flush(&mut self) -> std::io::Result<()> {
+        self.inner.flush()
+    }
+}
+
+impl<T: std::io::Seek> std::io::Seek for ShortIo<T> {
+    fn seek(&mut self, pos: std::io::SeekFrom) -> std::io::Result<u64> {
+        self.inner.seek(pos)
+    }
+}
+
 pub fn fnv64(data: &[u8]) -> u64 {
     let mut h: u64 = 0xcbf2_9ce4_8422_2325;
     for b in data {
